@@ -253,6 +253,16 @@ GROUPS = {
         functions=['FrameType::{write_to, encoded_len, from_bytes}', 'Datagrams::{write_to, encoded_len, from_bytes}', 'Status::{write_to, encoded_len, from_bytes}',
                    'RelayToClientMsg::{typ, to_bytes, write_to, encoded_len, from_bytes}', 'ClientToRelayMsg::{typ, to_bytes, write_to, encoded_len, from_bytes}', 'Conn::start_send'],
     ),
+    # second line behind the Verus unit dns_records
+    'dns_records_bx': dict(
+        unit='dns_records.rs', props=['C36'],
+        bounds=dict(quick=['2', '3'], thorough=['2', '4']),
+        space='every answer section of at most {0} records whose owner names are sequences of at most {1} labels from 6 (the signer\'s z-base-32 key, another key, `_iroh`, `*`, '
+              '`example`, the signer\'s key in upper case; names longer than 2 labels only if they mention the key or a wildcard), of type TXT / A / SOA / NS (later positions take every '
+              '7th candidate), each with an accept-all and a rejecting caller filter',
+        nontrivial='answer sections with a name of at least two labels',
+        functions=['signed_packet_to_hickory_records_without_origin'],
+    ),
     # second line behind the Verus unit builder_bind
     'builder_bind_bx': dict(
         unit='builder_bind.rs', props=['C20'],
